@@ -356,10 +356,10 @@ def classify(req, out):
   for opts, p in out.get("weighted_draws") or []:
     # every weighted draw of a model-based endpoint is the task draw: over the task options, with probability proportional to exp(-cost)
     tk = sorted(float(t) for t in (out["task_options"] or []))
-    w = [math.exp(-c) for c in opts]
-    want = [x / sum(w) for x in w]
     if sorted(opts) != tk or not tk:
       continue   # a weighted draw over something else (the temperature-weighted category choice of the decoder, C09)
+    w = [math.exp(-c) for c in opts]
+    want = [x / sum(w) for x in w]
     if len(p) != len(want) or any(abs(a - b) > 1e-12 for a, b in zip(p, want)):
       return dict(signature=f"C01:{ep}:task-draw-not-softmax-of-negative-cost", what=f"{ep} endpoint: the task is not drawn over the task options with probability "
                   "proportional to exp(-cost)", input=req, observed=dict(options=opts, probabilities=p), expected=dict(options=tk, probabilities=want),
